@@ -636,6 +636,15 @@ def r01k(chk, rid='R01.k'):
             for x in walk_expr(e):
                 if isinstance(x, ast.Subscript) and isinstance(x.ctx, ast.Load) and isinstance(x.value, ast.Name) and x.value.id == 'raw' and isinstance(const(x.slice), int):
                     uses.append((n, text(x)))
+                elif isinstance(x, ast.Call) and isinstance(x.func, ast.Name) and m.has(x.func.id) and isinstance(m.get(x.func.id), ast.FunctionDef):
+                    # a module-level helper that is handed the components and indexes them: the call is the use
+                    h = m.get(x.func.id)
+                    for i, a in enumerate(x.args):
+                        if isinstance(a, ast.Name) and a.id == 'raw' and i < len(h.args.args):
+                            pn = h.args.args[i].arg
+                            for y in ast.walk(h):
+                                if isinstance(y, ast.Subscript) and isinstance(y.ctx, ast.Load) and isinstance(y.value, ast.Name) and y.value.id == pn and isinstance(const(y.slice), int):
+                                    uses.append((n, f'{x.func.id}(raw): {pn}[{const(y.slice)}]'))
         if n.kind == 'stmt' and isinstance(n.stmt, ast.Assign) and isinstance(n.stmt.targets[0], ast.Tuple) and len(n.stmt.targets[0].elts) == 4 and 'rgba' in text(n.stmt.value):
             uses.append((n, text(n.stmt)[:70]))
     if len(uses) < 4:
